@@ -130,6 +130,8 @@ type pipeline struct {
 	upd      *restdoc.UpdateHandler
 	res      *restdoc.ResolveHandler
 	cas      *hx.MemCAS
+	aliases  []string
+	label    string
 }
 
 func newPipeline(r *hx.Rng, twoVers, useUnpub, concurrent bool) (*pipeline, error) {
@@ -174,7 +176,19 @@ func newPipeline(r *hx.Rng, twoVers, useUnpub, concurrent bool) (*pipeline, erro
 		return nil, err
 	}
 	pl.w = w
-	pl.dh = dochandler.New(hx.Namespace, nil, pl.pc, w, processor.New("verif", pl.store, pl.pc, popts...), hx.NopMetrics{}, dopts...)
+	var aliases []string
+	if r.Chance(1, 3) {
+		aliases = []string{"did:alias", "did:other:alias"}
+		pl.aliases = aliases
+	}
+	if r.Chance(1, 3) {
+		pl.label = fmt.Sprintf("lbl%d", r.Intn(90))
+		dopts = append(dopts, dochandler.WithLabel(pl.label))
+		if r.Bool() {
+			dopts = append(dopts, dochandler.WithDomain("https://dom.example"))
+		}
+	}
+	pl.dh = dochandler.New(hx.Namespace, aliases, pl.pc, w, processor.New("verif", pl.store, pl.pc, popts...), hx.NopMetrics{}, dopts...)
 	pl.obs = observer.New(&observer.Providers{Ledger: pl.ledger, ProtocolClientProvider: &hx.ClientProvider{C: pl.pc}})
 	pl.obs.Start()
 	pl.upd = restdoc.NewUpdateHandler(pl.dh, pl.pc, hx.NopMetrics{})
@@ -207,13 +221,18 @@ func (pl *pipeline) submit(req []byte, viaREST bool) (*document.ResolutionResult
 	return &rr, nil
 }
 
-// docContent canonicalises a DID document with every occurrence of its DID string replaced (content comparison).
-func docContent(res *document.ResolutionResult, did string) string {
+// docContent canonicalises a DID document with every occurrence of its own DID string (the document's id) replaced, so that
+// documents that differ only in the DID string compare equal.
+func docContent(res *document.ResolutionResult, _ string) string {
 	if res == nil {
 		return "nil"
 	}
 	t, _ := roundTrip(res.Document).(map[string]interface{})
-	return strings.ReplaceAll(string(ref.MustJCS(t)), did, "<DID>")
+	id, _ := t["id"].(string)
+	if id == "" {
+		return string(ref.MustJCS(t))
+	}
+	return strings.ReplaceAll(string(ref.MustJCS(t)), id, "<DID>")
 }
 
 func checkC20(c *hx.Ctx) {
@@ -244,6 +263,8 @@ func checkC20(c *hx.Ctx) {
 	c.Floor("ops_accepted_under_v0_anchored_after_v1_genesis", 1)
 	c.Floor("rest_submissions", 20)
 	c.Floor("operations_with_window", 20)
+	c.Floor("alias_resolutions_compared", 50)
+	c.Floor("runs_with_label", 5)
 }
 
 func runPipeline(c *hx.Ctx, r *hx.Rng, ri int, twoVers, useUnpub, concurrent bool) {
@@ -486,6 +507,18 @@ func runPipeline(c *hx.Ctx, r *hx.Rng, ri int, twoVers, useUnpub, concurrent boo
 				fail(fmt.Sprintf("did%d resolves to a document that differs from the reference state (history %s)\n   resolved: %s\n   expected: %s", di, histString(visible), trunc600(a), trunc600(b)), extra)
 				return false
 			}
+			for _, al := range pl.aliases {
+				ares, aerr := pl.dh.ResolveDocument(al + ":" + pd.d.Suffix)
+				if aerr != nil {
+					fail(fmt.Sprintf("did%d does not resolve through the namespace alias %s: %v", di, al, aerr), extra)
+					return false
+				}
+				if a, b := docContent(ares, ""), docContent(res, ""); a != b {
+					fail(fmt.Sprintf("did%d resolved through the alias %s differs in content from the resolution through the namespace\n   alias:     %s\n   namespace: %s", di, al, trunc600(a), trunc600(b)), extra)
+					return false
+				}
+				c.Count("alias_resolutions_compared")
+			}
 			md, _ := roundTrip(res.DocumentMetadata).(map[string]interface{})
 			method, _ := md["method"].(map[string]interface{})
 			uc, _ := method["updateCommitment"].(string)
@@ -675,6 +708,9 @@ func runPipeline(c *hx.Ctx, r *hx.Rng, ri int, twoVers, useUnpub, concurrent boo
 	}
 	if twoVers {
 		c.Count("runs:two-versions")
+	}
+	if pl.label != "" {
+		c.Count("runs_with_label")
 	}
 	if useUnpub {
 		c.Count("runs:unpublished-store")
